@@ -24,7 +24,9 @@ const (
 	pJF
 )
 
-func (p dkgProto) String() string { return [...]string{"FeldmanVSS", "FeldmanVSSQual", "JointFeldman"}[p] }
+func (p dkgProto) String() string {
+	return [...]string{"FeldmanVSS", "FeldmanVSSQual", "JointFeldman"}[p]
+}
 
 // abstract alphabet
 const (
@@ -202,7 +204,8 @@ func (f *dkgFixture) concretise(r *rand.Rand, seq []int) []concreteCall {
 		}
 		switch sym {
 		case symStart:
-			c.seed = bytes.Repeat([]byte{0x42}, 32)
+			// a different seed for every Start occurrence: a refused Start must not re-key the dealer
+			c.seed = bytes.Repeat([]byte{byte(0x42 + i)}, 32)
 		case symHBValid, symHPValid:
 			// an origin that has something valid to say, if any
 			pool := f.validBcast
